@@ -152,6 +152,8 @@ func runCheck(prop, tier, root string, seed int) int {
 	cfg := SolverCfg{WorkDir: work, Timeout: 40 * time.Second, Parallel: 16, Thorough: tier == "thorough", KeepFiles: false}
 	if tier == "thorough" {
 		cfg.Timeout = 120 * time.Second
+		cfg.Seed = seed
+		cfg.Audit = &AuditResult{}
 	}
 	kf := loadKnown(filepath.Join(verifRoot, "known_findings.json"))
 	known := map[string]KnownFinding{}
@@ -365,6 +367,7 @@ func runCheck(prop, tier, root string, seed int) int {
 			"unsupported_constructs":                  dedup(unsup),
 			"vacuous_units":                           vacuous,
 			"bounded_standins":                        standinEvidence(standins),
+			"thorough_cross_solver_audit":             auditEvidence(cfg.Audit),
 			"samples":                                 samples,
 			"arith":                                   "per function: bit-vectors of exact width (arith bv) or mathematical integers with explicit wrap-around at every Go operation (arith int)",
 		},
@@ -501,4 +504,12 @@ func standinEvidence(rs []standinResult) []map[string]string {
 			"label": "bounded: a test of the real code over the stated finite set of inputs; not a proof and not counted as one"})
 	}
 	return out
+}
+
+func auditEvidence(a *AuditResult) map[string]interface{} {
+	if a == nil {
+		return map[string]interface{}{"ran": false, "note": "quick tier: obligations are accepted from the first solver that proves them"}
+	}
+	return map[string]interface{}{"ran": true, "sampled": a.Sampled, "confirmed_by_second_solver": a.Confirmed, "undecided_by_second_solver": a.Undecided, "disagreements": a.Disagree,
+		"note": "a seeded sample of the obligations discharged on the fast path was re-sent stand-alone to z3 4.8.12 and cvc5; every obligation that reached the portfolio got an 8 s window in which any other solver could contradict the first verdict"}
 }
